@@ -170,19 +170,36 @@ Definition dec_pl (s : sexp) : option (path * leaf) :=
   end.
 
 Inductive run_status := RunOk | RunError | RunPanic | RunExecError.
-Record run_obs := { ro_resp : json; ro_status : run_status; ro_leaves : list (path * leaf) }.
+(** [ro_eff]: for an operation with @include / @skip, the (linked) document as it is selected under
+    the variable values of this run - the directives evaluated and dropped by the harness; the
+    generator ignores directives, so the program is that of the full document, and the keys of the
+    selections left out are absent from the response *)
+Record run_obs := { ro_resp : json; ro_status : run_status; ro_leaves : list (path * leaf); ro_eff : option document }.
 
 Definition dec_run (s : sexp) : option run_obs :=
   match tagged "run" s with
-  | Some [j; SSym st; SL ls] =>
+  | Some (j :: SSym st :: SL ls :: eff) =>
       let status := if String.eqb st "ok" then Some RunOk else if String.eqb st "error" then Some RunError
                     else if String.eqb st "panic" then Some RunPanic else if String.eqb st "exec-error" then Some RunExecError
                     else None in
       match status with
-      | Some RunExecError => Some {| ro_resp := JNull; ro_status := RunExecError; ro_leaves := [] |}
+      | Some RunExecError => Some {| ro_resp := JNull; ro_status := RunExecError; ro_leaves := []; ro_eff := None |}
       | Some x =>
           match dec_json j, map_opt dec_pl ls with
-          | Some jj, Some l => Some {| ro_resp := jj; ro_status := x; ro_leaves := l |}
+          | Some jj, Some l =>
+              match eff with
+              | [] => Some {| ro_resp := jj; ro_status := x; ro_leaves := l; ro_eff := None |}
+              | [e] =>
+                  match dec_doc e with
+                  | Some (Some d0) =>
+                      match link_doc d0 with
+                      | Some d' => Some {| ro_resp := jj; ro_status := x; ro_leaves := l; ro_eff := Some d' |}
+                      | None => None
+                      end
+                  | _ => None
+                  end
+              | _ => None
+              end
           | _, _ => None
           end
       | None => None
@@ -527,7 +544,48 @@ Definition oracle_key (S : schema) (d : document) (specific : string) : string :
   else if excl_decl_clash_s S d then "decl-name-clash"
   else specific.
 
-(** oracle for one in-envelope case: the property's claims about the implementation's output *)
+(** what a Go field holds when its key is absent from the response *)
+Definition zero_leaf (l : leaf) : bool :=
+  match l with
+  | LNull | LEmpty => true
+  | LBool b => negb b
+  | LStr s => is_nil s
+  | LNum (NI z) => Z.eqb z 0
+  | LNum (NF _) => false
+  end.
+
+(** the position in the response a leaf path stands for (the steps into fragment fields dropped) *)
+Definition json_pos (pl : path * leaf) : path * leaf :=
+  (filter (fun s => match s with PFrag _ => false | _ => true end) (fst pl), snd pl).
+
+(** the operation as selected in one run *)
+Definition run_op (o : opdef) (r : run_obs) : opdef :=
+  match ro_eff r with
+  | Some d' =>
+      match find (fun o' => match op_name o', op_name o with Some a, Some b => bytes_eqb a b | _, _ => false end) (d_ops d') with
+      | Some o' => o'
+      | None => o
+      end
+  | None => o
+  end.
+
+(** the operation as selected in this run is still inside the envelope (a skipped selection may
+    have carried the only __typename of a selection set that applies fragments to an abstract type) *)
+Definition run_in_env (S : schema) (o : opdef) (r : run_obs) : bool :=
+  match ro_eff r with
+  | Some d' =>
+      let o' := run_op o r in
+      match root_type S o' with
+      | Some rt => all_structs S (env_local S (d_frags d')) (sel_fuel (op_sels o')) rt (op_sels o')
+      | None => false
+      end
+  | None => true
+  end.
+
+(** oracle for one in-envelope case: the property's claims about the implementation's output.
+    With @include / @skip the response is shaped by the operation as selected in that run, every
+    selected leaf is decoded with the value sent, and whatever else the decoded value holds (the
+    fields of selections left out) is the zero value or the value sent at the same position. *)
 Definition oracle_env (S : schema) (d : document) (o : opdef) (io : impl_obs) : option sexp :=
   let fail k := Some (v_oracle_fail (oracle_key S d k) []) in
   match io_gen io with
@@ -545,6 +603,8 @@ Definition oracle_env (S : schema) (d : document) (o : opdef) (io : impl_obs) : 
                  | RunError => fail "decode-error"
                  | RunPanic => fail "decode-panic"
                  | RunOk =>
+                     if negb (run_in_env S o r) then go (Datatypes.S i) rest else
+                     let o := run_op o r in
                      match root_type S o, ro_resp r with
                      | Some root, JObj _ =>
                          match elab_val S decode_fuel (TNamed root) (op_sels o) (ro_resp r) with
@@ -552,7 +612,18 @@ Definition oracle_env (S : schema) (d : document) (o : opdef) (io : impl_obs) : 
                              if negb (conforms S o w && json_eqb (json_of w) (ro_resp r)) then
                                Some (v_oracle_fail "response-not-shaped" [of_nat i])
                              else if set_eqb (norm_leaves (ro_leaves r)) (norm_leaves (expected S o w)) then go (Datatypes.S i) rest
-                             else if subset (norm_leaves (expected S o w)) (norm_leaves (ro_leaves r)) then fail "leaf-not-selected"
+                             else if subset (norm_leaves (expected S o w)) (norm_leaves (ro_leaves r)) then
+                               match ro_eff r with
+                               | Some _ =>
+                                   (* a leaf that is not selected in this run: the zero value, or - the struct of a
+                                      fragment that was left out is still filled from the keys other selections
+                                      brought - the value sent at that position of the response *)
+                                   if forallb (fun pl => existsb (pl_eqb pl) (norm_leaves (expected S o w)) || zero_leaf (snd pl) ||
+                                                         existsb (fun e => pl_eqb (json_pos pl) (json_pos e)) (norm_leaves (expected S o w)))
+                                              (norm_leaves (ro_leaves r))
+                                   then go (Datatypes.S i) rest else fail "leaf-not-selected"
+                               | None => fail "leaf-not-selected"
+                               end
                              else fail "leaf-lost-or-wrong"
                          | None => Some (v_oracle_fail "response-not-shaped" [of_nat i])
                          end
@@ -655,7 +726,8 @@ Definition check (c : sexp) : sexp :=
                                       let exp_frag :=
                                         match find_op d opname, in_env with
                                         | Some o, true =>
-                                            existsb (fun r => match root_type Sch o with
+                                            existsb (fun r => let o := run_op o r in
+                                                              match root_type Sch o with
                                                               | Some root =>
                                                                   match elab_val Sch decode_fuel (TNamed root) (op_sels o) (ro_resp r) with
                                                                   | Some w => has_frag_leaf (expected Sch o w)
